@@ -27,7 +27,7 @@ RULE = (
     "and super()), a shared macro library m0 (module body and macros contain gates; imported without context = cached "
     "default module, with context, via from-import, called with call blocks), shared includes (with and without "
     "context), per-template globals, bodies with async-def, types.coroutine and __await__-object data functions, loops over lists, plain generators and async iterables (loop.index/cycle/changed/last/"
-    "previtem), set inside loops read back through a pass_context function, namespaces (also initialised from a dict global and from a dict exported by the cached library), cyclers, joiners, autoescape "
+    "previtem), set inside loops read back through a pass_context function, namespaces (also initialised from a dict global and from a dict exported by the cached library), cyclers, joiners, |list copies (of a list global and of a list exported by the cached library) modified in place, autoescape "
     "blocks, with blocks, filter blocks, local macros with call blocks; 2-3 tasks over those mains with distinct data. "
     "Per set every release order over the task indices up to length 6 (2 tasks) / 5 (3 tasks) in quick, 8 / 7 in "
     "thorough, is enumerated (orders releasing a task more often than it has gates are skipped) with both drain "
@@ -84,6 +84,12 @@ def _body_src(nodes, d):
             srcd = "GD" if n[1] == 0 else "libd.defaults"
             pre = "" if n[1] == 0 else "{% import 'm0' as libd %}"
             out.append(pre + "{%% set nsd = namespace(%s) %%}{{ nsd.k }}{%% set nsd.k = x %%}{%% set nsd.j = x ~ 'j' %%}{{ gate() }}{{ nsd.k }}{{ nsd.j }}" % srcd)
+        elif k == "lst":
+            # a copy (|list) of a list that outlives the render (0 = a list global, 1 = a list exported by the cached
+            # library module) is modified in place; the copy must not alias the original
+            srcl = "GL" if n[1] == 0 else "libl.entries"
+            pre = "" if n[1] == 0 else "{% import 'm0' as libl %}"
+            out.append(pre + "{%% set mine = %s|list %%}{%% set _ = mine.append(x) %%}{{ gate() }}{%% set _ = mine.append(x ~ '2') %%}{{ mine|join(',') }}" % srcl)
         elif k == "cyc":
             out.append("{% set cy = cycler(x, 'q') %}{{ cy.next() }}{{ gate() }}{{ cy.next() }}{{ cy.current }}")
         elif k == "join":
@@ -130,7 +136,7 @@ def source_of(tdef):
     if tdef.get("ext"):
         s += "{%% extends '%s' %%}" % tdef["ext"]
     if tdef.get("lib"):
-        s += "{% set lv = 'L' ~ tg %}{% set defaults = {'k': 'd', 'n': 1} %}"
+        s += "{% set lv = 'L' ~ tg %}{% set defaults = {'k': 'd', 'n': 1} %}{% set entries = ['p', 'q'] %}"
         s += "{%% macro mm(a) %%}[{{ a }}{{ gate() }}%s{{ a }}{{ tg }}]{%% endmacro %%}" % _body_src(tdef.get("mac") or [], 0)
         s += "{% macro wrap(a) %}({{ a }}{{ gate() }}{{ caller() }}{{ a }}){% endmacro %}"
         # gates of the library's module body are tagged: the harness sees two tasks building the module at once
@@ -230,7 +236,7 @@ class _Sched:
         def pc(ctx, name):
             return "%s" % (ctx.resolve(name),)
 
-        return dict(gate=gate, aseq=aseq, seq=seq, pc=pc, rows=rows, tc=tc, aw=Aw, GD={"k": "g", "n": 2}, mk=[markupsafe.Markup("<i>"), "b"])
+        return dict(gate=gate, aseq=aseq, seq=seq, pc=pc, rows=rows, tc=tc, aw=Aw, GD={"k": "g", "n": 2}, GL=["g1", "g2"], mk=[markupsafe.Markup("<i>"), "b"])
 
     async def settle(self):
         import asyncio
@@ -365,7 +371,7 @@ def _reach(case, name, acc):
         for n in nodes:
             if n[0] == "inc":
                 _reach(case, n[1], acc)
-            elif n[0] == "imp" or (n[0] == "nsd" and n[1] == 1):
+            elif n[0] == "imp" or (n[0] in ("nsd", "lst") and n[1] == 1):
                 _reach(case, "m0", acc)
             for part in n[1:]:
                 if isinstance(part, list) and part and isinstance(part[0], list):
@@ -376,7 +382,7 @@ def _reach(case, name, acc):
     return acc
 
 
-_SUSPENDING = {"g", "tc", "aw", "lset", "set", "ns", "cyc", "join", "nsd", "inc"}
+_SUSPENDING = {"g", "tc", "aw", "lset", "set", "ns", "cyc", "join", "nsd", "lst", "inc"}
 
 
 def _suspends(nodes):
@@ -512,7 +518,7 @@ def _strategy(maxdepth, with_order):
                 kinds += ["i", "lset", "lset"]
             if c["super"]:
                 kinds += ["sup", "sup"]
-            kinds += ["set", "ns", "cyc", "join", "nsd"]
+            kinds += ["set", "ns", "cyc", "join", "nsd", "lst"]
             if depth < maxdepth:
                 kinds += ["for", "for", "auto", "auto", "with", "fil", "if"]
                 if c["lib"]:
@@ -528,8 +534,8 @@ def _strategy(maxdepth, with_order):
                 return ["t", draw(st.sampled_from(["T", "u", "<b>"]))]
             if k in ("x", "g", "h", "tg", "i", "lset", "set", "cyc", "sup", "tc", "aw", "jn"):
                 return [k]
-            if k == "nsd":
-                return ["nsd", draw(st.sampled_from([0, 1])) if c["lib"] else 0]
+            if k in ("nsd", "lst"):
+                return [k, draw(st.sampled_from([0, 1])) if c["lib"] else 0]
             if k in ("ns", "join"):
                 return [k, draw(st.sampled_from([2, 1, 3]))]
             if k == "for":
